@@ -8,6 +8,7 @@ convert: the emitted C array is tokenised and compared with the fixed-width publ
 Keys are searched until coordinates with a leading zero byte have been observed (count in the evidence).
 """
 import os
+import zlib
 import re
 import shutil
 import subprocess
@@ -63,6 +64,11 @@ def case_keys(rec, case):
     x = r.random()
     route = "sub" if x < 0.01 else "cli" if x < 0.3 else "cmd"
     exc = None
+    if zlib.crc32(f"stale/{case['n']}".encode()) % 4 == 0:
+        # an earlier run left LONGER key files under the same prefix (e.g. a bigger key type): they must be replaced
+        for leftover in (f"{prefix}_priv.{enc}", f"{prefix}_pub.{enc}"):
+            drive.make_stale(leftover)
+        rec.count("keys:longer-files-of-an-earlier-run-under-the-prefix")
     try:
         if route == "cmd":
             from suit_generator import cmd_keys
@@ -98,7 +104,7 @@ def case_keys(rec, case):
         if exc is not None:
             rec.violation("keys-refused", f"{combo}: {common.exc_text(exc)}", full)
             return
-        if not (os.path.exists(pf) and os.path.exists(uf)):
+        if not (drive.written(pf) and drive.written(uf)):
             rec.violation("keys-files-missing", f"{combo}: key files not written", full)
             return
         pb, ub = open(pf, "rb").read(), open(uf, "rb").read()
@@ -310,7 +316,7 @@ def case_convert(rec, case):
     if opts["array_type"] == "const_u8_t":
         opts["array_type"] = "uint8_t"
     kf = drive.fresh(wd, ".pem")
-    cf = drive.fresh(wd, ".c")
+    cf = drive.fresh_out(wd, ".c")
     hf = ff = ""
     with open(kf, "wb") as fh:
         fh.write(pem)
